@@ -79,7 +79,8 @@ def mk_line(s, arr, judge, form="slash", rule_style="opt", repeat=False, extra_f
             "echo": {"opts": s["opts"], "rules": s.get("rules", []), "wild": wild},
             # library arrangements run over the instrumented transport: record the complete session
             # transcript, validated action by action against the composed specification (RsyncTrace.tla)
-            "full": arr in ("lib", "libpush") and form == "slash" and not wild}
+            # (daemon arrangements: through a tap proxy in front of the daemon's socket)
+            "full": arr in ("lib", "libpush", "pull", "push") and form == "slash" and not wild}
 
 
 def attach_peers(obs, lines):
